@@ -41,7 +41,10 @@ def gen_case(rng):
                 max_iter=rng.choice([3, 4, 6, 9]) if mixed else rng.choice([1, 2, 5, 10, 20, 40, 60]),
                 mem=rng.choice([1, 1, 2]) if mixed else rng.choice([1, 2, 5, 10]), extra_out=rng.random() < 0.6,
                 downstream=rng.random() < 0.6, batch=rng.randint(4, 10) if mixed else rng.randint(1, 10), mixed=mixed,
-                seed=rng.randrange(10 ** 9), poison=rng.random() < 0.35)
+                seed=rng.randrange(10 ** 9), poison=rng.random() < 0.35,
+                # coupling variables declared with a non-identity normalisation (members are evaluated through their models: values
+                # cross the loop in model units, whatever form the initial guess had)
+                cnorm=rng.choice([None, None, 'linear(0.5, 1)', 'linear(2, -3)']))
 
 
 class Log:
@@ -53,7 +56,7 @@ def build(case, log):
     n = case['n']
     sid = Variable('sid', domain=(0.0, 100.0))
     rho = Variable('rho', domain=(0.0, 2.0))
-    cvars = [Variable(f'c{i}', domain=(-2.0, 2.0)) for i in range(n)]
+    cvars = [Variable(f'c{i}', domain=(-2.0, 2.0), **({'norm': case['cnorm']} if case.get('cnorm') else {})) for i in range(n)]
     evars = [Variable(f'e{i}') for i in range(n)]
     comps = []
     for i in range(n):
@@ -117,6 +120,10 @@ def run_case(ctx, res, case, lines, post):
     psid = case['poison_sid']
     system = build(case, log)
     kw = dict(max_fpi_iter=case['max_iter'], fpi_tol=case['tol'], anderson_mem=case['mem'], normalized_inputs=False)
+    if case.get('cnorm'):
+        # with normalised coupling variables the loop is evaluated through the models explicitly (`use_model`): everything the
+        # caller gets back is then in model units (without `use_model` amisc returns surrogate-form, i.e. normalised, values)
+        kw['use_model'] = 'best'
     y = system.predict(dict(x), **kw)
     cnames = [f'c{i}' for i in range(n)]
     info = {k: case[k] for k in case}
@@ -239,6 +246,33 @@ def run_case(ctx, res, case, lines, post):
         res.hit('loop-with-downstream-component')
 
 
+def run_first_residual_case(ctx, res, case):
+    """regression of fixed finding F16: a loop evaluated through the MODELS (`use_model`) whose coupling variables carry a
+    normalisation, designed so that the first sweep's outputs coincide (as numbers) with the NORMALISED initial guess: the first
+    residual must compare like with like, and every member of the first sweep must read the initial guess in model units"""
+    slope, off, g = case['slope'], case['offset'], case['gain']
+    nrm = f'linear({slope}, {off})'
+    c0, c1 = Variable('c0', domain=(-2.0, 2.0), norm=nrm), Variable('c1', domain=(-2.0, 2.0), norm=nrm)
+    rho = Variable('rho', domain=(0.0, 2.0))
+    mid = off                       # normalised image of the domain midpoint 0
+    b0, b1 = mid, mid - g * mid     # first sweep (c1 = 0 for m0; c0 = 0 - or, with the defect, `mid` - for m1) returns (mid, mid)
+    comps = [Component(lambda inputs: {'c0': g * np.atleast_1d(inputs['c1']) + b0}, inputs=[rho, c1], outputs=[c0], name='m0', vectorized=True),
+             Component(lambda inputs: {'c1': g * np.atleast_1d(inputs['c0']) + b1}, inputs=[rho, c0], outputs=[c1], name='m1', vectorized=True)]
+    y = System(*comps, name='loop').predict({'rho': np.array([0.5, 1.0])}, max_fpi_iter=200, fpi_tol=1e-10, use_model='best',
+                                            normalized_inputs=False)
+    sol = np.linalg.solve(np.array([[1.0, -g], [-g, 1.0]]), np.array([b0, b1]))
+    for k in range(2):
+        got = np.array([float(np.atleast_1d(y['c0'])[k]), float(np.atleast_1d(y['c1'])[k])])
+        if np.any(np.isnan(got)):
+            continue
+        resid = max(abs(g * got[1] + b0 - got[0]), abs(g * got[0] + b1 - got[1]))
+        if resid > 1e-8 or np.max(np.abs(got - sol)) > 1e-7:
+            res.failures.append({'kind': 'returned-sample-is-not-a-fixed-point-within-tolerance', 'input': case,
+                                 'observed': {'returned': got.tolist(), 'residual': resid}, 'expected': sol.tolist()})
+    res.hit('first-sweep-coincides-with-normalised-initial-guess')
+    res.case(('first_residual', str(case)), True, case)
+
+
 def run_two_loops(ctx, res, seed):
     """two SEQUENTIAL feedback loops: (a0 <-> a1) feeds (b0 <-> b1) feeds a plain component d. Oracle only: exact 2x2 linear
     solves; a sample that fails in loop A is NaN in A, B and d; one that fails only in loop B keeps its loop-A values and is
@@ -314,15 +348,24 @@ def run(ctx: core.Ctx, only=None) -> core.Result:
     lines, post = [], []
     cases = [o.get('input', o) for o in only] if only is not None else core.corpus_cases('C06') + \
         [gen_case(ctx.rng) for _ in range(ctx.scale(40, 600))]
-    keys = ('n', 'kind', 'M', 'b', 'tol', 'max_iter', 'mem', 'extra_out', 'downstream', 'batch', 'seed', 'mixed', 'poison')
+    keys = ('n', 'kind', 'M', 'b', 'tol', 'max_iter', 'mem', 'extra_out', 'downstream', 'batch', 'seed', 'mixed', 'poison', 'cnorm')
     if only is None:
         cases = cases + [{'two_loops': ctx.rng.randrange(10 ** 6)} for _ in range(ctx.scale(6, 60))]
+    if only is None:
+        cases = cases + [{'first_residual': True, 'slope': sl, 'offset': of, 'gain': 0.5} for sl, of in ((2.0, -3.0), (0.5, 1.0))]
     for case in cases:
+        if 'first_residual' in case:
+            with core.guarded(res, 'scenario-raised', case):
+                run_first_residual_case(ctx, res, case)
+            continue
         if 'two_loops' in case:
             with core.guarded(res, 'scenario-raised', case):
                 run_two_loops(ctx, res, case['two_loops'])
             continue
         case = {k: case.get(k, False) for k in keys}
+        case['cnorm'] = case['cnorm'] or None
+        if case['cnorm']:
+            res.hit('coupling-variables-with-normalisation')
         with core.guarded(res, 'scenario-raised', case):
             run_case(ctx, res, case, lines, post)
     out = core.try_driver(lines, res, 'Amisc.fpiRun')
